@@ -108,6 +108,10 @@ type enc struct {
 	inStore     bool
 	callBinds   map[string]bool // cells bound to the closure being called
 	lockLoops   []lockLoop
+	retVals     []string
+	retTypes    []types.Type
+	lockStates  []hstate        // heap right after each lock acquisition (for atlock())
+	countKeys   map[string]bool // callee keys counted for ncalls()
 }
 
 type EncOpts struct {
@@ -524,7 +528,7 @@ func (e *enc) val(v ssa.Value) string {
 		e.assume(e.allocated(n, e.entryState()))
 		el := c.Type().Underlying().(*types.Pointer).Elem()
 		e.locs[v] = e.cellLoc(n, el)
-		if closureFnSync(e.f) {
+		if closureFnSync(e.f) || freeVarStable(e.f, c) {
 			// the captured variable belongs to the creating activation, which is suspended while we run
 			pa := privAlloc{ref: n, arrs: map[string]bool{}}
 			if _, isStruct := el.Underlying().(*types.Struct); isStruct {
@@ -557,6 +561,38 @@ func (e *enc) val(v ssa.Value) string {
 	}
 	e.note(fmt.Sprintf("val %T", v))
 	return e.havoc(v)
+}
+
+// freeVarStable: the captured variable is never assigned after its initialisation, neither by the
+// creating function nor by any closure capturing it.
+func freeVarStable(fn *ssa.Function, fv *ssa.FreeVar) bool {
+	p := fn.Parent()
+	if p == nil {
+		return false
+	}
+	idx := -1
+	for i, x := range fn.FreeVars {
+		if x == fv {
+			idx = i
+		}
+	}
+	if idx < 0 {
+		return false
+	}
+	for _, b := range p.Blocks {
+		for _, ins := range b.Instrs {
+			if mc, ok := ins.(*ssa.MakeClosure); ok && mc.Fn == ssa.Value(fn) && idx < len(mc.Bindings) {
+				switch src := mc.Bindings[idx].(type) {
+				case *ssa.Alloc:
+					return allocWrittenOnce(src)
+				case *ssa.FreeVar:
+					return freeVarStable(p, src)
+				}
+				return false
+			}
+		}
+	}
+	return false
 }
 
 func (e *enc) cellLoc(ref string, el types.Type) loc {
